@@ -19,7 +19,7 @@ def generate(chk, thorough, want_unsupported=True, simulate=True):
     mod = os.path.join(D, "MC_GdsGen.tla")
     cases = []
     cfg = os.path.join(W, "gen_single.cfg")
-    gen_cfg(cfg, 1, 1, 2, 7 if thorough else 5, False)
+    gen_cfg(cfg, 1, 1, 2, 7 if thorough else 6, False)
     r = tlc.check(mod, cfg, coverage=False, timeout=7200, mem="12g")
     chk.add_tlc("MC_GdsGen one element per stream, every optional-record subset", r)
     chk.tlc_must_pass("MC_GdsGen single", r)
@@ -28,7 +28,7 @@ def generate(chk, thorough, want_unsupported=True, simulate=True):
     cases += r.cases
     if want_unsupported:
         cfg = os.path.join(W, "gen_unsup.cfg")
-        gen_cfg(cfg, 1, 0, 0, 3, True)
+        gen_cfg(cfg, 1, 0, 0, 5, True)      # 5 profiles: every 16-bit class (incl. 0) in every library-level record
         r = tlc.check(mod, cfg, timeout=3600)
         chk.add_tlc("MC_GdsGen library-level optional records", r)
         chk.tlc_must_pass("MC_GdsGen unsupported", r)
